@@ -73,7 +73,7 @@ Print Assumptions C15_pytag_tables_inverse.
 
 (* ---- Proofs.TaggedFacts ---- *)
 From Coq Require Import List Bool NArith ZArith Arith.
-From BV Require Import Lib.PyStr Lib.Decimal Lib.Regex Model.Pep440 Proofs.CalverE2E Proofs.TaggedFacts.
+From BV Require Import Lib.PyStr Lib.Decimal Lib.Regex Model.Pep440 Proofs.DottedJoinFacts Proofs.TaggedFacts.
 Import ListNotations.
 Theorem C15_to_pep440_tagged_sep : forall (v : bool) (ds : list (list N)) (sep : list N) (t : btag) (num : list N), ds <> [] -> Forall dstr ds -> sep_ok sep -> all_digits num = true -> to_pep440 (tagged v ds sep t num) = DottedFacts.dotted (map undec ds) ++ canon_suffix t (undec num).
 Proof. exact to_pep440_tagged_sep. Qed.
